@@ -9,6 +9,39 @@ import os
 import sys
 
 
+def install_entropy(seed):
+    """Per-process entropy sources a program might (wrongly) fold into an assignment are drawn from the
+    simulator's value for this node incarnation, so that a run is a pure function of the scenario:
+    os.urandom (hence uuid4, secrets), the global random state, time.time / time_ns, os.getpid / getppid."""
+    import hashlib
+    import random
+    import time
+
+    state = {"n": 0}
+
+    def urandom(n):
+        out = b""
+        while len(out) < n:
+            state["n"] += 1
+            out += hashlib.sha256(b"%d:%d" % (seed, state["n"])).digest()
+        return out[:n]
+
+    os.urandom = urandom
+    random._urandom = urandom
+    random.seed(seed)
+    t_base = 1_700_000_000.0 + (seed % 10_000_000) * 7.0
+
+    def fake_time():
+        state["n"] += 1
+        return t_base + state["n"] * 0.001
+
+    time.time = fake_time
+    time.time_ns = lambda: int(fake_time() * 1e9)
+    fake_pid = 1000 + seed % 60000
+    os.getpid = lambda: fake_pid
+    os.getppid = lambda: 1
+
+
 def main():
     rfd, wfd = (int(x) for x in os.environ["VERIF_NODE_FDS"].split(","))
     src = os.environ["VERIF_NODE_SRC"]
@@ -18,7 +51,8 @@ def main():
     out = os.fdopen(wfd, "w", encoding="utf-8", newline="\n")
     devnull = open(os.devnull, "w")
     sys.stdout = sys.stderr = devnull
-    info = {"hashseed": os.environ.get("PYTHONHASHSEED"), "pid_parity": os.getpid() % 2}
+    info = {"hashseed": os.environ.get("PYTHONHASHSEED")}
+    install_entropy(int(os.environ.get("VERIF_NODE_ENTROPY", "1")))
     # an embedding application would adopt the user's locale
     import locale
 
